@@ -74,6 +74,17 @@ def run(ctx):
     for s in ['', ' ', '\n', '\t  ']:
         for lang in LANGN:
             cases.append({'op': 'parse', 'lang': lang, 'toks': [], 'text': s})
+    # quoted atoms with raw control characters between the quotes: the documented ESCAPED_STRING does not span a line
+    # break (such a text has no token at the opening quote), while tabs and other blanks inside the quotes are fine
+    raws = ['a\nb', '\n', 'a b\n', 'x\\\ny', 'a\tb', '\t', 'a\rb', 'a  b', 'a\n\nb', 'p\n']
+    for toks in rnd.sample(valid, min(len(valid), 150 if q else 1500)):
+        idxs = [i for i, t in enumerate(toks) if t[0] == 'w' and t[1] not in ('true', 'false', 'not', 'or', 'and', 'A', 'E', 'X', 'F', 'G', 'U', 'R')]
+        if not idxs:
+            continue
+        i = rnd.choice(idxs)
+        text = ' '.join('"%s"' % rnd.choice(raws) if j == i else ('"%s"' % t[1] if t[0] == 'e' else t[1]) for j, t in enumerate(toks))
+        for lang in LANGN:
+            cases.append({'op': 'parse', 'lang': lang, 'toks': tokenise(text), 'text': text})
     sup = {'PL': ['CTL', 'LTL', 'CTLS'], 'CTL': ['CTLS'], 'LTL': ['CTLS'], 'CTLS': []}
     primed = []
     for toks in rnd.sample(valid, min(len(valid), 40 if q else 300)):
